@@ -596,6 +596,35 @@ impl World {
                 })());
                 Observed::NoCall
             }
+            Op::TomlLink { layer, .. } => {
+                let rel = model_after.ltoml(*layer);
+                let full = to_path(&self.root, &rel);
+                harness((|| {
+                    remove_any(&full)?;
+                    if let Some(crate::snap::Node::Symlink { target }) = model_after.snap.get(&rel) {
+                        std::os::unix::fs::symlink(OsStr::from_bytes(target), &full)?;
+                    }
+                    Ok(())
+                })());
+                Observed::NoCall
+            }
+            Op::ExecDAlias { layer, from, to, hard } => {
+                let e = self.layer_path(*layer).join("exec.d");
+                harness((|| {
+                    remove_any(&e.join(to))?;
+                    if *hard {
+                        fs::hard_link(e.join(from), e.join(to))
+                    } else {
+                        std::os::unix::fs::symlink(from, e.join(to))
+                    }
+                })());
+                Observed::NoCall
+            }
+            Op::ChmodLayer { layer, mode } => {
+                let d = self.layer_path(*layer);
+                harness(fs::set_permissions(&d, fs::Permissions::from_mode(*mode)));
+                Observed::NoCall
+            }
             Op::SbomLink { layer, format, .. } => {
                 let rel = model_after.lsbom(*layer, *format);
                 let full = to_path(&self.root, &rel);
